@@ -4,7 +4,7 @@ primitive operations (recording wrappers put into the parser module's own namesp
 the values of _SAFE_CASTS, max / min / abs), wall time.  JSON stdin -> JSON stdout.
 
 cases
-  ["script", text]                 -> {"exc", "msg", "audit": [...], "wall"}
+  ["script", text]                 -> {"exc", "msg", "audit": [...], "env": [environment variables read], "wall"}
   ["expr", src, env]               -> {"res", "prims": [...], "builtins": [...], "audit": [...]}
   ["ref", text]                    -> {"cpp_sha"}        (state-leak probe: same text before / after the stream)
   ["blowup", n]                    -> {"bits", "exc"}     bit length of _eval_const("2**2**n"), or the exception it raises
@@ -59,6 +59,33 @@ def _hook(event, args):
 
 
 sys.addaudithook(_hook)
+
+# reads of the process environment have no audit event: os.environ's item access is wrapped (os.getenv, .get and `in` all end
+# there); iteration / copying counts as reading everything.  REDUINO_VERIF is the verification hook's own switch.
+import os as _os   # noqa: E402
+_env = {"keys": []}
+_ENV_OK = ("REDUINO_VERIF",)
+
+
+def _wrap_environ():
+    cls = type(_os.environ)
+    real_get, real_iter = cls.__getitem__, cls.__iter__
+
+    def getitem(self, key):
+        if _rec["on"] and key not in _ENV_OK:
+            _env["keys"].append(key if isinstance(key, str) else repr(key))
+        return real_get(self, key)
+
+    def iterate(self):
+        if _rec["on"]:
+            _env["keys"].append("<all>")
+        return real_iter(self)
+
+    cls.__getitem__ = getitem
+    cls.__iter__ = iterate
+
+
+_wrap_environ()
 
 
 class _Timeout(BaseException):
@@ -115,6 +142,7 @@ def dec(w):
 
 def do_script(text, limit):
     _rec["events"] = []
+    _env["keys"] = []
     exc = msg = None
     t0 = time.time()
     signal.alarm(limit)
@@ -136,7 +164,7 @@ def do_script(text, limit):
         signal.alarm(0)
     if hasattr(P, "_VERIF_IGNORED"):
         del P._VERIF_IGNORED[:]
-    return {"exc": exc, "msg": msg, "audit": _rec["events"][:10], "wall": round(time.time() - t0, 3)}
+    return {"exc": exc, "msg": msg, "audit": _rec["events"][:10], "env": sorted(set(_env["keys"]))[:10], "wall": round(time.time() - t0, 3)}
 
 
 class _OpProxy:
@@ -315,6 +343,7 @@ def do_target(text, pio, scratch, limit):
     exc = msg = None
     returned = None
     _rec["events"] = []
+    _env["keys"] = []
     t0 = time.time()
     try:
         main.__file__ = script
@@ -355,7 +384,8 @@ def do_target(text, pio, scratch, limit):
     shutil.rmtree(work, ignore_errors=True)
     if hasattr(P, "_VERIF_IGNORED"):
         del P._VERIF_IGNORED[:]
-    return {"alone": alone, "exc": exc, "msg": msg, "returned": returned, "proc": proc[:10], "pio_ran": pio_ran, "wall": wall}
+    env = sorted(set(k for k in _env["keys"] if k not in ("TMPDIR", "TEMP", "TMP")))     # (tempfile's own look-ups)
+    return {"alone": alone, "exc": exc, "msg": msg, "returned": returned, "proc": proc[:10], "pio_ran": pio_ran, "env": env[:10], "wall": wall}
 
 
 def do_variants(text, limit):
